@@ -61,7 +61,7 @@ MUX = {
     ),
     "C08": dict(
         title="connection end resolves everything, local drop flushes",
-        mc=dict(quick=["MC_Teardown_q"], thorough=["MC_Teardown"]),
+        mc=dict(quick=["MC_Teardown_q"], thorough=["MC_Teardown", "MC_TeardownLive_q"]),
         needs=["AFault", "ADropMux", "TWd"],
         sims=dict(quick=[("fault", 220, 80)], thorough=[("fault", 5000, 120), ("all", 1000, 160)]),
         nontrivial=lambda r: r.get("ev") in ("fault", "drop_mux") or (r.get("ev") == "inject" and r.get("m", {}).get("op") == "close"),
